@@ -280,18 +280,16 @@ func runCase(c Case, run *vh.Run, idx int) (res result, fatal string) {
 			o := mkObs(nil, br.Errs[i], br.Panics[i], -1)
 			o.outcome, o.dbErr = sqlh.Classify(br.Errs[i], br.Panics[i], sqlh.AnyFailed(res.log))
 			res.subs = append(res.subs, o)
-			// rows handed to a caller of a limited handle lie in its shard
-			// (only for filters outside the known class c10-batch-matcher-go-type: there the matcher's Go
-			// equality is not SQL equality, e.g. a pointer to "" on an implicitnull column also matches NULL)
-			typed := true
-			for k, v := range c.Filters[i] {
-				if col := t.Col(k); col != nil && !sqlh.ExactlyTyped(col, v) {
-					typed = false
-				}
-			}
-			if !typed && len(c.callerHandle(i).Enforced()) > 0 {
+			// rows handed to a caller of a limited handle lie in its shard -- for every filter inside the exact
+			// premise of the transparency theorem (Props/C12.v c12_batched_rows_lie_in_the_shard); outside it
+			// the matcher's Go equality is not SQL equality (open finding c10-batch-matcher-go-type: e.g. a
+			// pointer to "" on an implicitnull column also matches NULL rows fetched for another caller)
+			if _, tr := sqlh.Transparent(t, c.Filters[i]); !tr && len(c.callerHandle(i).Enforced()) > 0 {
 				run.Hist("rows-in-shard-oracle-skipped:filter-in-known-matcher-class")
 				continue
+			}
+			if len(c.callerHandle(i).Enforced()) > 0 {
+				run.Hist("rows-in-shard-oracle-applied")
 			}
 			for _, l := range c.callerHandle(i).Enforced() {
 				for _, row := range br.Rows[i] {
